@@ -391,17 +391,27 @@ impl Lowerer {
                     })
                     .try_collect()?;
 
+                let span = expr.span;
                 let lit = RelationLiteral {
                     columns: columns
                         .iter()
-                        .map(|c| c.as_single().unwrap().clone().unwrap())
-                        .collect_vec(),
+                        .map(|c| {
+                            c.as_single().unwrap().clone().ok_or_else(|| {
+                                Error::new_simple("every column of a relation literal needs a name")
+                                    .with_span(span)
+                            })
+                        })
+                        .try_collect()?,
                     rows: elements
                         .into_iter()
                         .map(|row| {
+                            let row_span = row.span;
                             row.kind
                                 .into_tuple()
-                                .unwrap()
+                                .map_err(|_| {
+                                    Error::new_simple("every row of a relation literal must be a tuple")
+                                        .with_span(row_span)
+                                })?
                                 .into_iter()
                                 .map(|element| {
                                     element.try_cast(
